@@ -151,7 +151,7 @@ def small_scope(ctx):
 
 
 def run(ctx: Ctx):
-    ctx.rule = ("edit histories as in C01 (parsed and API starts, 14 call kinds, multi-argument 40%, arguments from anywhere in the "
+    ctx.rule = ("edit histories as in C01 (parsed and API starts, 15 call kinds (incl. clear(decompose=True) and the deprecated spellings replaceWith / replace_with_children / replaceWithChildren), multi-argument 40%, arguments from anywhere in the "
                 "forest) + exhaustive single calls over small trees (all argument tuples of length <= 2, thorough <= 3); after every "
                 "call the .contents nesting by identity vs the independent list-of-lists spec and vs the Lean model. non-trivial = "
                 "an argument came from the same parent / elsewhere in the forest / was a BeautifulSoup object / was repeated")
